@@ -101,6 +101,16 @@ type Genesis struct {
 	Accounts              []GenAcc
 	Pools                 []GenPool
 	Validators            []GenVal
+	Books                 []GenBook // genesis order books: every open sell order's AmountForSale is credited to the chain's escrow pool
+	Retired               []uint64
+	Imported              bool // built by GenesisFromExport: qualifies the oracle signatures of that chain
+}
+
+// GenBook is a genesis order book: the sell orders of one chain. For the ledger only the amounts matter (they are added
+// to Supply.Total and to the escrow pool ChainId + EscrowPoolAddend); ids and addresses make the orders well-formed.
+type GenBook struct {
+	Chain  uint64
+	Orders []*lib.SellOrder
 }
 
 func u64s(xs []uint64, sep string) string {
@@ -135,7 +145,14 @@ func (g *Genesis) OpLine() string {
 	if g.Faucet != nil {
 		faucet = hx(g.Faucet)
 	}
-	var as, ps, vs []string
+	var as, ps, vs, bs []string
+	for _, b := range g.Books {
+		var amts []uint64
+		for _, o := range b.Orders {
+			amts = append(amts, o.AmountForSale)
+		}
+		bs = append(bs, fmt.Sprintf("%d:%s", b.Chain, u64s(amts, "/")))
+	}
 	for _, a := range g.Accounts {
 		as = append(as, fmt.Sprintf("%s:%d", hx(a.Addr), a.Amount))
 	}
@@ -146,13 +163,13 @@ func (g *Genesis) OpLine() string {
 		vs = append(vs, fmt.Sprintf("%s:%d:%s:%d:%d:%s:%d:%d", hx(x.Key.Addr), x.Stake, u64s(x.Committees, "/"), b2i(x.Delegate), b2i(x.Compound),
 			hx(x.Output), x.UnstakingHeight, x.MaxPausedHeight))
 	}
-	return fmt.Sprintf("genesis chain=%d bph=%d itpb=%d faucet=%s pv=%d/%d root=%d ub=%d dub=%d mpb=%d nsw=%d mns=%d nss=%d dss=%d mspc=%d msv=%d msd=%d mc=%d ewp=%d spsc=%d dao=%d fees=%s A=%s P=%s V=%s R=-",
+	return fmt.Sprintf("genesis chain=%d bph=%d itpb=%d faucet=%s pv=%d/%d root=%d ub=%d dub=%d mpb=%d nsw=%d mns=%d nss=%d dss=%d mspc=%d msv=%d msd=%d mc=%d ewp=%d spsc=%d dao=%d fees=%s A=%s P=%s V=%s R=%s O=%s",
 		g.ChainId, g.BlocksPerHalvening, g.InitialTokensPerBlock, faucet, pv.Version, pv.Height, p.Consensus.RootChainId,
 		v.UnstakingBlocks, v.DelegateUnstakingBlocks, v.MaxPauseBlocks, v.NonSignWindow, v.MaxNonSign, v.NonSignSlashPercentage,
 		v.DoubleSignSlashPercentage, v.MaxSlashPerCommittee, v.MinimumStakeForValidators, v.MinimumStakeForDelegates, v.MaxCommittees,
 		v.EarlyWithdrawalPenalty, v.StakePercentForSubsidizedCommittee, p.Governance.DaoRewardPercentage,
 		u64s([]uint64{f.SendFee, f.StakeFee, f.EditStakeFee, f.UnstakeFee, f.PauseFee, f.UnpauseFee, f.ChangeParameterFee, f.DaoTransferFee, f.SubsidyFee}, "/"),
-		joinOrDash(as, ","), joinOrDash(ps, ","), joinOrDash(vs, ","))
+		joinOrDash(as, ","), joinOrDash(ps, ","), joinOrDash(vs, ","), u64s(g.Retired, ","), joinOrDash(bs, ","))
 }
 
 // HasDuplicates: an address or pool id listed twice (the real loader accepts it and counts both)
@@ -197,7 +214,44 @@ func (g *Genesis) state() *fsm.GenesisState {
 			Committees: x.Committees, MaxPausedHeight: x.MaxPausedHeight, UnstakingHeight: x.UnstakingHeight, Output: x.Output,
 			Delegate: x.Delegate, Compound: x.Compound})
 	}
+	if len(g.Books) > 0 {
+		gs.OrderBooks = &lib.OrderBooks{}
+		for _, b := range g.Books {
+			gs.OrderBooks.OrderBooks = append(gs.OrderBooks.OrderBooks, &lib.OrderBook{ChainId: b.Chain, Orders: b.Orders})
+		}
+	}
+	if len(g.Retired) > 0 {
+		gs.RetiredCommittees = g.Retired
+	}
 	return gs
+}
+
+// GenesisFromExport turns what ExportState() returned into the harness' genesis description (the part of the file
+// NewStateFromGenesis reads: parameters, accounts, pools, validators, order books, retired committees); node
+// configuration is taken from `base`.
+func GenesisFromExport(base *Genesis, exp *fsm.GenesisState) *Genesis {
+	g := &Genesis{ChainId: base.ChainId, BlocksPerHalvening: base.BlocksPerHalvening, InitialTokensPerBlock: base.InitialTokensPerBlock,
+		Faucet: base.Faucet, Params: exp.Params, Retired: exp.RetiredCommittees, Imported: true}
+	for _, a := range exp.Accounts {
+		g.Accounts = append(g.Accounts, GenAcc{Addr: a.Address, Amount: a.Amount})
+	}
+	for _, q := range exp.Pools {
+		g.Pools = append(g.Pools, GenPool{Id: q.Id, Amount: q.Amount})
+	}
+	for _, v := range exp.Validators {
+		k := KeyFor(v.Address)
+		if k == nil {
+			panic("exported validator with a key the harness does not know")
+		}
+		g.Validators = append(g.Validators, GenVal{Key: k, Stake: v.StakedAmount, Committees: v.Committees, Delegate: v.Delegate, Compound: v.Compound,
+			Output: v.Output, UnstakingHeight: v.UnstakingHeight, MaxPausedHeight: v.MaxPausedHeight})
+	}
+	if exp.OrderBooks != nil {
+		for _, b := range exp.OrderBooks.OrderBooks {
+			g.Books = append(g.Books, GenBook{Chain: b.ChainId, Orders: b.Orders})
+		}
+	}
+	return g
 }
 
 // ---------------------------------------------------------------------------------------------
@@ -216,7 +270,7 @@ type Chain struct {
 	// one by one before it jumps from marker height to marker height
 	WedgeHorizon uint64
 	StakingBias  bool // C12: more staking life-cycle operations and slashes
-	Wrapped, DelegateSlashed, GenesisDup bool // what the harness knows it provoked (qualifies oracle signatures)
+	Wrapped, DelegateSlashed, GenesisDup, GenesisImport bool // what the harness knows it provoked (qualifies oracle signatures)
 	NearMax      bool // genesis total above 2^62: the generator keeps discretionary mints off
 	WholeApply   bool // apply each transaction through ApplyTransactions instead of ApplyTransaction
 }
@@ -243,7 +297,7 @@ func truncate(s string, n int) string {
 // NewChain runs the REAL genesis path (genesis.json -> fsm.New -> NewFromGenesisFile -> Commit) and
 // emits the genesis op. ok=false when the real code rejected the genesis.
 func NewChain(o *drv.Out, prop string, g *Genesis) (c *Chain, ok bool) {
-	c = &Chain{O: o, Prop: prop, WedgeHorizon: 24, GenesisDup: g.HasDuplicates()}
+	c = &Chain{O: o, Prop: prop, WedgeHorizon: 24, GenesisDup: g.HasDuplicates(), GenesisImport: g.Imported}
 	dir, err := os.MkdirTemp("", "verif-ledger-")
 	if err != nil {
 		panic(err)
